@@ -77,3 +77,14 @@ Theorem c12_dimension_refusals_exact : forall s o, (exists e, snd (dstep s o) = 
   end.
 Proof. exact refusals. Qed.
 Print Assumptions c12_dimension_refusals_exact.
+
+(* non-vacuity (Proofs/NonVacuous.v; concrete reachable states, by vm_compute) *)
+From NixV Require Proofs.NonVacuous.
+(* a refused creator in a reachable writable state *)
+Example c12_hypotheses_met := NonVacuous.nv_dup_refused.
+Check c12_hypotheses_met.
+Print Assumptions c12_hypotheses_met.
+(* refused and accepted dimension calls *)
+Example c12_dimension_hypotheses_met := NonVacuous.nv_dim.
+Check c12_dimension_hypotheses_met.
+Print Assumptions c12_dimension_hypotheses_met.
